@@ -113,3 +113,43 @@ Proof.
   { rewrite Forall_forall in HA2. apply HA2. apply nth_In. rsimp; lia. }
   rewrite !vdot_unitv_r in E by auto. exact E.
 Qed.
+
+(* quadratic form of a weighted sum of outer products: sum_k w_k (b_k . x)^2 *)
+From ML Require Import LinAlg.
+Notation wgramR := (@wgram ROps).
+Fixpoint wsq (w : Rv) (B : Rm) (x : Rv) : R :=
+  match w, B with
+  | wk :: w', b :: B' => wk * (vdotR b x)^2 + wsq w' B' x
+  | _, _ => 0
+  end.
+Lemma mscale_wfm c k d (A : Rm) : wfmR k d A -> wfmR k d (mscaleR c A).
+Proof. intros [H1 H2]. split.
+  - unfold mscale. rewrite map_length. exact H1.
+  - unfold mscale. apply Forall_forall. intros r Hr. apply in_map_iff in Hr as [r0 [<- Hr0]].
+    rewrite Forall_forall in H2. unfold wfv in *. rewrite vscale_length. apply H2; auto. Qed.
+Lemma wgram_wfm d : forall (w : Rv) (B : Rm), Forall (wfvR d) B -> wfmR d d (wgramR d w B).
+Proof.
+  induction w as [|wk w IH]; intros [|b B] H; cbn; try apply mzero_wfm.
+  inversion H; subst. apply madd_wfm; [|apply IH; auto].
+  apply mscale_wfm. match goal with Hb : wfvR d b |- _ => unfold wfv in Hb; rewrite <- Hb end. apply outer_wfm.
+Qed.
+Lemma quadform_wgram d : forall (w : Rv) (B : Rm) x, Forall (wfvR d) B -> wfvR d x ->
+  quadformR (wgramR d w B) x = wsq w B x.
+Proof.
+  induction w as [|wk w IH]; intros [|b B] x H Hx; cbn [wgram combine fold_right wsq fst snd];
+    try apply quadform_mzero.
+  inversion H as [|? ? Hb HB]; subst.
+  rewrite (quadform_madd d d); auto.
+  - rewrite quadform_mscale, quadform_outer. fold (wgramR d w B). rewrite IH by auto. reflexivity.
+  - apply mscale_wfm. unfold wfv in Hb. rewrite <- Hb. apply outer_wfm.
+  - apply wgram_wfm; auto.
+Qed.
+Lemma wsq_nonneg : forall (w : Rv) B x, Forall (fun a => 0 <= a) w -> 0 <= wsq w B x.
+Proof.
+  induction w as [|wk w IH]; intros [|b B] x H; cbn; try lra.
+  inversion H; subst. specialize (IH B x H3). pose proof (pow2_ge_0 (vdotR b x)). nra.
+Qed.
+(* any non-negative combination of outer products is positive semi-definite *)
+Lemma wgram_psd d (w : Rv) (B : Rm) : Forall (wfvR d) B -> Forall (fun a => 0 <= a) w ->
+  PSDop d (wgramR d w B).
+Proof. intros HB Hw x Hx. rewrite quadform_wgram by auto. apply wsq_nonneg; auto. Qed.
